@@ -18,7 +18,13 @@ syntactically on the function at hand; when a condition does not hold the code i
                                if c: continue             ==>        if not c:
                                B                                         B
       at the top level of a loop body (`not c` tests the truth of c exactly as `if c` does); a `continue` that ends the
-      loop body is dropped.
+      loop body is dropped.  With statements before the `continue`:
+                           for v in it:                          for v in it:
+                               A                                     A
+                               if c:                      ==>        if c:
+                                   C                                     C
+                                   continue                          else:
+                               B                                         B
 
   return of a conditional   return (a if c else b)        ==>    if c: return a
   expression                                                      else: return b
@@ -103,6 +109,14 @@ def _guard_continue(body):
                 rest = [ast.copy_location(ast.Pass(), s)]
             test = ast.copy_location(ast.UnaryOp(op=ast.Not(), operand=s.test), s.test)
             new = ast.copy_location(ast.If(test=test, body=rest, orelse=[]), s)
+            return body[:i] + [ast.fix_missing_locations(new)]
+        if isinstance(s, ast.If) and not s.orelse and len(s.body) > 1 and isinstance(s.body[-1], ast.Continue) \
+                and not any(isinstance(n, (ast.Continue, ast.Break)) for c in s.body[:-1] for n in ast.walk(c)):
+            # if c: C; continue   followed by B   ==>   if c: C else: B
+            rest = _guard_continue(body[i + 1:])
+            if not rest:
+                rest = [ast.copy_location(ast.Pass(), s)]
+            new = ast.copy_location(ast.If(test=s.test, body=list(s.body[:-1]), orelse=rest), s)
             return body[:i] + [ast.fix_missing_locations(new)]
     return body
 
